@@ -822,9 +822,15 @@ class EReference(EStructuralFeature):
 
     @eOpposite.setter
     def eOpposite(self, value):
+        previous = self.__dict__.get('_eopposite')
         self._eopposite = value
         if value:
             value._eopposite = self
+        # the reference that was the opposite so far is released (both ends
+        # are set together, they are given up together)
+        if previous is not None and previous is not value \
+                and previous._eopposite is self:
+            previous._eopposite = None
         # this property shadows the reflective 'eOpposite' feature (which does
         # not exist yet while Ecore itself is being defined): record that it
         # is set, or it is never written to an .ecore file
